@@ -26,7 +26,7 @@ func oneReadFault(in *Input, sch sim.Schedule, f sim.Fault, tape *sim.Tape, st *
 			return nil
 		}
 		return map[string]any{"surface": in.Surf.String(), "input": printable(in.Data), "input_desc": in.Desc, "schedule": sch.String(),
-			"fault": fmt.Sprintf("%s at offset %d of %d", f.Kind, f.At, len(in.Data)), "fault_delivered(a Read returned 0,err)": r.Delivered, "returned_error": dump.Err(err), "result": clipS(res, 400)}
+			"fault": fmt.Sprintf("%s at offset %d of %d, error value %q", f.Kind, f.At, len(in.Data), f.Err), "fault_delivered(a Read returned 0,err)": r.Delivered, "returned_error": dump.Err(err), "result": clipS(res, 400)}
 	}
 	key := fmt.Sprintf("fault:%s:%s", in.Surf, f.Kind)
 	if p != nil {
@@ -158,6 +158,20 @@ func genWriteTarget(t *sim.Tape) writeTarget {
 		for len(f.Glyphs) < 70 {
 			f.Glyphs[fmt.Sprintf("big%d", len(f.Glyphs))] = gen.GenGlyph(t, true)
 		}
+	} else if t.Bool(1, 6) {
+		// many glyphs with charstrings longer than one 512-byte eexec block, and
+		// names of varying length so that their starts sweep all alignments
+		f = gen.GenFont(t, 3)
+		for i := 0; i < 40; i++ {
+			f.Glyphs[fmt.Sprintf("long%s%d", strings.Repeat("x", t.Choose(24)), i)] = gen.LongGlyph(t)
+		}
+		k := 2 + 2*t.Choose(2) // binary eexec or the PDF form: few, block-sized write calls
+		if k == 4 {
+			return writeTarget{"Font.WritePDF(long charstrings, " + gen.DescribeFont(f) + ")", func(w *sim.SimWriter) error { _, _, err := f.WritePDF(w); return err }}
+		}
+		return writeTarget{"Font.Write(binary, long charstrings, " + gen.DescribeFont(f) + ")", func(w *sim.SimWriter) error {
+			return f.Write(w, &type1.WriterOptions{Format: type1.FormatBinary})
+		}}
 	}
 	k := t.Choose(5)
 	if k == 4 {
@@ -225,9 +239,10 @@ func C13() *sim.Check {
 		if sch.Mode == sim.ChunkRandom {
 			sch.Mode, sch.K = sim.ChunkFixed, 1+t.Choose(9)
 		}
+		ferr := sim.Pick(t, sim.FaultErrors)
 		for _, off := range offsetsFor(t, in, false, nOff) {
 			for _, k := range readFaultKinds {
-				if out := oneReadFault(in, sch, sim.Fault{Kind: k, At: off}, nil, c.St, c.Explain); out != nil {
+				if out := oneReadFault(in, sch, sim.Fault{Kind: k, At: off, Err: ferr}, nil, c.St, c.Explain); out != nil {
 					return out
 				}
 				c.St.Inc("fault_runs")
@@ -257,9 +272,10 @@ func C13() *sim.Check {
 			sch.Mode, sch.K = sim.ChunkFixed, 1+t.Choose(9)
 		}
 		c.St.Inc("inputs_with_every_offset")
+		ferr := sim.Pick(t, sim.FaultErrors)
 		for _, off := range offsetsFor(t, in, true, 0) {
 			for _, k := range readFaultKinds {
-				if out := oneReadFault(in, sch, sim.Fault{Kind: k, At: off}, nil, c.St, c.Explain); out != nil {
+				if out := oneReadFault(in, sch, sim.Fault{Kind: k, At: off, Err: ferr}, nil, c.St, c.Explain); out != nil {
 					return out
 				}
 				c.St.Inc("fault_runs")
